@@ -33,24 +33,41 @@ Textbook quantities on the retained hashes (`a.mins`, strictly ascending):
   `empty_containment_refused_example`
 * comparison dataclasses: `frac_comparison_sound`, `num_comparison_sound`,
   `comparison_incompatible_refused`, `comparison_num_vs_scaled_refused`
-* recorded behaviour outside the statement: `num_mismatch_answered_example`, `overflow_example`
+* the doubles themselves (exact binary64 model; sketch sizes < 2^53): `common_eq_union_iff`, `jaccard_f64`
+  (range, `= 1.0` iff equal non-empty hash sets, `= 0.0` iff disjoint), `ratio_f64_mono`,
+  `containment_f64_unbiased` (`= 1.0` iff `A ⊆ B`), `containment_f64_value` (the clamp logic around the
+  libm-dependent bias factor, a PARAMETER with `BiasLaws`: range, never below `fl(c/d)`, `1.0` for full
+  containment, `0.0` iff disjoint, monotone, `bias = 1.0` ⇒ plain quotient), `avg_containment_f64_range`
+* angular similarity as a double, everything but `acos` (a PARAMETER with `AcosLaws`): `angular_cos_arg_le_one`
+  (the clamp: `acos` never sees an argument above 1, no NaN), `angular_f64_range`, `angular_f64_disjoint`,
+  `angular_f64_self`, `angular_self_not_one_example` (finding `C05:angular-self-not-1` at model level),
+  `cos_unclamped_exceeds_one_example`
+* downsample flag = explicit downsampling: `similarity_downsample_explicit` (every scaled pair ≤ 2^31, both
+  orders, `count_common` too), `downsample_flag_noop`, `num_comparison_explicit`, `containment_downsample`
+* `u64` overflow (finding `C05:angular-u64-overflow`): `overflow_example`, `overflow_orthogonal_example`
+* recorded behaviour outside the statement: `num_mismatch_answered_example`
 
 History: two findings of this property were repaired in /repo 0bf3075 and their former
 counterexamples are now regression examples proved from the model of the repaired code
 (`empty_containment_refused_example`, `containment_downsample_example`).
 
-Where the code still violates the statement (one known finding):
-* the angular similarity of a sketch with itself: `angular_self_parts` proves that the integers fed
-  to the float tail are `(Σa², Σa², Σa²)`, i.e. the cosine is exactly 1; the tail
-  `prod / (sqrt(a_sq) * sqrt(b_sq))`, `acos` is tier 2 (not modelled in the kernel) and its rounding
-  makes the reported value 1 - 1.3e-8 for e.g. abundances (1, 1) (finding `C05:angular-self-not-1`,
-  reproduced by the check's oracle on the real code; the candidate patch was rejected because it
-  changes the last ulp of other similarities).
+Where the code still violates the statement (two known findings):
+* `C05:angular-self-not-1`: `angular_self_parts` proves that the integers fed to the float tail are
+  `(Σa², Σa², Σa²)`, i.e. the cosine is exactly 1; `angular_self_not_one_example` proves, with every IEEE
+  operation of the tail modelled exactly, that for abundances (1, 1) the argument handed to `acos` is
+  `1 - 2^-52` (`fl(√2)·fl(√2) > 2`), which `acos` turns into a similarity of `1 - 1.3e-8`
+  (the candidate patch was rejected: it changes the last ulp of other similarities).
+* `C05:angular-u64-overflow`: the `u64` accumulators of `angular_similarity` wrap (`overflow_example`:
+  similarity 0.0 of a sketch with itself at abundance 2^32; `overflow_orthogonal_example`: 1.0 for two
+  almost orthogonal sketches).  Candidate patch: `patches/C05-angular-u64-overflow.diff`.
 
-Tier 2 (NOT proved): the rounding of `sqrt`, `acos`, `**`.  `u64` overflow of Σa² is assumed absent
-in `dot_eq_no_overflow`; `dot_eq` itself holds for the wrapped values.
+NOT proved: the two libm calls `acos` and `**` (`pow`).  They are parameters of the model
+(`Cmp.angularValue`, `PyCmp.Cont.value`) with the stated laws `AcosLaws` / `BiasLaws`
+(Lemmas/CompareFloat.lean); the check compares the values that depend on them with relative tolerance 1e-12.
 -/
 import SmVerif.Lemmas.CompareLemmas
+import SmVerif.Lemmas.CompareFloat
+import SmVerif.Lemmas.CompareDownsample
 import Mathlib.Tactic.Linarith
 import Mathlib.Tactic.Positivity
 import Mathlib.Data.Finset.Card
@@ -335,7 +352,7 @@ theorem num_isize_def {a b : MH} (ha : Inv a) (hb : Inv b) (hc : Compatible a b)
   unfold Cmp.intersectionSize
   rw [hc]
   simp only [bind, Except.bind, pure, Except.pure, ne_eq, hn, not_false_eq_true, if_true, h1, h2]
-  have hi := sorted_interL (ys := b.mins) ha.sorted
+  have hi : Sorted (interL a.mins b.mins) := ha.sorted.sublist (interL_sublist a.mins b.mins)
   have hu' : Sorted (u.take a.num) := hu.take _
   rw [hc2, interL_eq_filter _ _ hi hu', interL_eq_filter _ _ ha.sorted hb.sorted]
 
@@ -954,6 +971,68 @@ theorem containment_downsample_example :
     by decide +kernel, by decide +kernel, by decide +kernel, by unfold CoreMismatch; decide +kernel, _, _, rfl, ?_⟩
   decide +kernel
 
+/-! ### the downsample flag against explicit downsampling -/
+
+/-- **`similarity(downsample=True)` (and `count_common(downsample=True)`) of two scaled sketches with different
+    scaled values `Sb < Sa ≤ 2^31` is `similarity` of the two sketches downsampled explicitly with Python
+    `downsample(scaled=Sa)`**, in both argument orders, flat or with abundances, with or without
+    `ignore_abundance`.  (The Rust-internal `downsample_scaled` of a clone and the Python `downsample` keep
+    exactly the hashes `≤ max_hash(Sa)` with their counts — C03 — and the comparison code reads nothing else.)
+    For `contained_by` / `max_containment` the same relation is `containment_downsample`. -/
+theorem similarity_downsample_explicit {a b x y : MH} {Sa Sb : Nat}
+    (ha : Inv a) (hb : Inv b) (hna : a.num = 0) (hnb : b.num = 0)
+    (hMa : a.maxHash = mhR Sa) (hMb : b.maxHash = mhR Sb)
+    (hb1 : 1 ≤ Sb) (hlt : Sb < Sa) (ha2 : Sa ≤ 2 ^ 31)
+    (hx : Py.downsample a none (some Sa) = .ok x) (hy : Py.downsample b none (some Sa) = .ok y) (ia : Bool) :
+    Cmp.similarity a b ia true = Cmp.similarity x y ia false ∧
+    Cmp.similarity b a ia true = Cmp.similarity x y ia false ∧
+    Cmp.countCommon a b true = Cmp.countCommon x y false ∧
+    Cmp.countCommon b a true = Cmp.countCommon x y false :=
+  Sm.similarity_downsample_explicit ha hb hna hnb hMa hMb hb1 hlt ha2 hx hy ia
+
+/-- equal scaled values (in particular two num sketches, whose Rust `scaled()` is 0): the flag changes nothing -/
+theorem downsample_flag_noop {a b : MH} (h : a.scaled = b.scaled) (ia : Bool) :
+    Cmp.similarity a b ia true = Cmp.similarity a b ia false ∧
+    Cmp.countCommon a b true = Cmp.countCommon a b false := by
+  unfold Cmp.similarity Cmp.countCommon
+  simp [h]
+
+/-- num sketches are brought to a common size by `NumMinHashComparison` only, and that IS explicit
+    downsampling: the pair it compares is `(mh1.downsample(num=n), mh2.downsample(num=n))` with
+    `n = cmp_num` or `min(mh1.num, mh2.num)` (after `flatten()` when `ignore_abundance`) -/
+theorem num_comparison_explicit {a b x y : MH} {cn : Option Nat} {c : Nat}
+    (h : numNew a b cn false = .ok (c, x, y)) :
+    c = cn.getD (min a.num b.num) ∧
+    Py.downsample a (some c) none = .ok x ∧ Py.downsample b (some c) none = .ok y := by
+  unfold numNew at h
+  obtain ⟨xy, hxy, h⟩ := bind_ok h
+  obtain ⟨x', y'⟩ := xy
+  simp only [pure, Except.pure, Except.ok.injEq, Prod.mk.injEq] at h
+  obtain ⟨hc, rfl, rfl⟩ := h
+  unfold checkCompatibilityAndDownsample at hxy
+  split at hxy
+  · cases hxy
+  · obtain ⟨pq, hd, hxy⟩ := bind_ok hxy
+    obtain ⟨p, q⟩ := pq
+    simp only at hxy
+    split at hxy
+    · cases hxy
+    · simp only [pure, Except.pure, Except.ok.injEq, Prod.mk.injEq] at hxy
+      obtain ⟨rfl, rfl⟩ := hxy
+      unfold downsampleAndHandleIgnoreAbundance at hd
+      simp only [Bool.false_eq_true, if_false] at hd
+      obtain ⟨a1, ha1, hd⟩ := bind_ok hd
+      obtain ⟨b1, hb1, hd⟩ := bind_ok hd
+      simp only [pure, Except.pure, Except.ok.injEq] at ha1 hb1
+      subst ha1 hb1
+      obtain ⟨a2, ha2, hd⟩ := bind_ok hd
+      obtain ⟨b2, hb2, hd⟩ := bind_ok hd
+      simp only [pure, Except.pure, Except.ok.injEq, Prod.mk.injEq] at hd
+      obtain ⟨rfl, rfl⟩ := hd
+      rw [← hc]
+      refine ⟨?_, ha2, hb2⟩
+      cases cn <;> rfl
+
 /-! ### comparison dataclasses (`FracMinHashComparison`, `NumMinHashComparison`) -/
 
 /-- whatever the constructor accepts, the two sketches every derived quantity is computed from
@@ -999,6 +1078,224 @@ theorem comparison_num_vs_scaled_refused {a b : MH} (ha : a.maxHash = 0) (hb : b
   simp only [hg, not_false_eq_true, if_true]
   exact ⟨rfl, rfl⟩
 
+/-! ### the doubles themselves (IEEE-754 binary64, exact model) -/
+
+open F64 in
+/-- equal hash sets ⇔ the intersection is as large as the union -/
+theorem common_eq_union_iff {a b : MH} (ha : Inv a) (hb : Inv b) :
+    common a b = union a b ↔ a.mins = b.mins := by
+  constructor
+  · intro h
+    have h1 := common_le_left a b
+    have h2 := common_le_right ha hb
+    unfold union at h
+    have hA : common a b = a.mins.length := by omega
+    have hB : common b a = b.mins.length := by rw [← common_symm ha hb]; omega
+    have sub : ∀ {x y : MH}, common x y = x.mins.length → ∀ h ∈ x.mins, h ∈ y.mins := by
+      intro x y hxy
+      unfold common at hxy
+      have := List.length_filter_eq_length_iff.1 hxy
+      intro h hh
+      simpa using this h hh
+    apply Sorted.ext ha.sorted hb.sorted
+    intro x
+    exact ⟨sub hA x, sub hB x⟩
+  · intro h
+    have : common a b = a.mins.length := by
+      unfold common; rw [← h]
+      rw [List.filter_eq_self.2]
+      intro x hx; simpa using hx
+    unfold union
+    rw [this, h]; omega
+
+open F64 in
+/-- **Jaccard as a double**: in `[0, 1]`; exactly `1.0` iff the two sketches hold the same non-empty
+    hash set; exactly `0.0` iff they share no hash — for sketches below 2^53 hashes -/
+theorem jaccard_f64 {a b : MH} (ha : Inv a) (hb : Inv b) (hc : Compatible a b) (hn : a.num = 0)
+    (hsz : a.mins.length + b.mins.length < 2 ^ 53) :
+    ∃ v, Cmp.jaccard a b = .ok v ∧ 0 ≤ v.val ∧ v.val ≤ 1 ∧
+      (v.val = 1 ↔ a.mins = b.mins ∧ a.mins ≠ []) ∧
+      (v.val = 0 ↔ ∀ x ∈ a.mins, x ∉ b.mins) := by
+  refine ⟨_, jaccard_float ha hb hc hn, ratio_nonneg _ _, ?_, ?_, ?_⟩
+  all_goals
+    have hcu := common_le_union ha hb
+    have hul : union a b ≤ a.mins.length + b.mins.length := by unfold union; omega
+    have hm53 : max 1 (union a b) < 2 ^ 53 := by
+      have : (1 : Nat) < 2 ^ 53 := by decide
+      omega
+    have hmpos : 0 < max 1 (union a b) := by omega
+    have hcm : common a b ≤ max 1 (union a b) := by omega
+  · exact ratio_le_one hcm hmpos hm53
+  · rw [ratio_eq_one_iff hcm hmpos hm53]
+    constructor
+    · intro h
+      have h1 : 1 ≤ union a b := by
+        by_contra hlt
+        have hu0 : union a b = 0 := by omega
+        have : common a b = 0 := by omega
+        omega
+      have heq : common a b = union a b := by omega
+      have hmins := (common_eq_union_iff ha hb).1 heq
+      refine ⟨hmins, ?_⟩
+      intro hnil
+      have : union a b = 0 := by unfold union common; rw [← hmins, hnil]; rfl
+      omega
+    · rintro ⟨hmins, hne⟩
+      have heq := (common_eq_union_iff ha hb).2 hmins
+      have h1 : 1 ≤ a.mins.length := by
+        cases h : a.mins with
+        | nil => exact absurd h hne
+        | cons x xs => simp
+      have hca : common a b = a.mins.length := by
+        unfold common; rw [← hmins]
+        rw [List.filter_eq_self.2]
+        intro x hx; simpa using hx
+      omega
+  · rw [ratio_eq_zero_iff hmpos (by omega) hm53]
+    constructor
+    · intro h x hx hxb
+      have : x ∈ a.mins.filter (fun h => decide (h ∈ b.mins)) := by simp [hx, hxb]
+      unfold common at h
+      rw [List.length_eq_zero_iff.1 h] at this
+      cases this
+    · exact common_disjoint
+
+open F64 in
+/-- the double is monotone in the intersection size and antitone in the union size (counts below 2^53) -/
+theorem ratio_f64_mono {c c' u u' : Nat} (hcc : c ≤ c') (huu : u' ≤ u) (hu' : 0 < u')
+    (hc53 : c' < 2 ^ 53) (hu53 : u < 2 ^ 53) : (ratioF (c, u)).val ≤ (ratioF (c', u')).val :=
+  ratio_mono hcc huu hu' hc53 hu53
+
+open F64 in
+/-- **raw containment as a double** (`bias_factor == 1.0`, i.e. `|A| ≥ 40` or `scaled == 1`): in `[0, 1]`,
+    `1.0` iff `A ⊆ B`, `0.0` iff disjoint -/
+theorem containment_f64_unbiased {a b : MH} (hb : Inv b) (s : Nat)
+    (hne : a.mins ≠ []) (hsz : a.mins.length < 2 ^ 53) :
+    let v := (Cont.ratio (common a b) a.mins.length s).unbiased
+    0 ≤ v.val ∧ v.val ≤ 1 ∧ (v.val = 1 ↔ ∀ x ∈ a.mins, x ∈ b.mins) ∧
+    (v.val = 0 ↔ ∀ x ∈ a.mins, x ∉ b.mins) := by
+  intro v
+  have _hb := hb
+  have hl : 0 < a.mins.length := by
+    cases h : a.mins with
+    | nil => exact absurd h hne
+    | cons x xs => simp
+  have hcl := common_le_left a b
+  refine ⟨(clamp01_range _).1, (clamp01_range _).2, ?_, ?_⟩
+  · show (clamp01 _).val = 1 ↔ _
+    rw [clamp01_eq_one_iff]
+    constructor
+    · intro h
+      have hle := ratio_le_one hcl hl hsz
+      have heq := (ratio_eq_one_iff hcl hl hsz).1 (le_antisymm hle h)
+      unfold common at heq
+      have := List.length_filter_eq_length_iff.1 heq
+      intro x hx; simpa using this x hx
+    · intro h
+      have : common a b = a.mins.length := by
+        unfold common
+        rw [List.filter_eq_self.2]
+        intro x hx; simpa using h x hx
+      rw [this, ratio_self hl hsz]
+  · show (clamp01 _).val = 0 ↔ _
+    rw [clamp01_eq_zero_iff, ← val_eq_zero_iff, ratio_eq_zero_iff hl (by omega) hsz]
+    constructor
+    · intro h x hx hxb
+      have : x ∈ a.mins.filter (fun h => decide (h ∈ b.mins)) := by simp [hx, hxb]
+      unfold common at h
+      rw [List.length_eq_zero_iff.1 h] at this
+      cases this
+    · exact common_disjoint
+
+/-- **the clamp logic around the bias factor** (`bias` = the libm-dependent double
+    `1.0 - (1.0 - 1.0/scaled) ** float(denom*scaled)`, assumed in `(0, 1]`: `BiasLaws`).  For every containment
+    result `c`: the reported double is in `[0, 1]` (no assumption needed); under `BiasLaws`, for `cc ≤ d < 2^53`
+    it is never below the plain quotient `fl(cc/d)`, is exactly `1.0` when `cc = d`, is `0.0` iff `cc = 0`,
+    is monotone in `cc`, and equals the clamped plain quotient when the bias factor is `1.0` -/
+theorem containment_f64_value (bias : Nat → Nat → F64.F) :
+    (∀ c : Cont, 0 ≤ (c.value bias).val ∧ (c.value bias).val ≤ 1) ∧
+    (BiasLaws bias → ∀ cc d s : Nat, 1 ≤ s → 1 ≤ d → d < 2 ^ 53 → cc ≤ d →
+      (F64.divNat cc d).val ≤ ((Cont.ratio cc d s).value bias).val ∧
+      ((Cont.ratio d d s).value bias = F64.one) ∧
+      (((Cont.ratio cc d s).value bias).val = 0 ↔ cc = 0) ∧
+      (∀ cc', cc ≤ cc' → cc' < 2 ^ 53 →
+        ((Cont.ratio cc d s).value bias).val ≤ ((Cont.ratio cc' d s).value bias).val)) ∧
+    (∀ cc d s : Nat, 1 ≤ d → d < 2 ^ 53 → cc < 2 ^ 53 → bias s d = F64.one →
+      ((Cont.ratio cc d s).value bias).val = ((Cont.ratio cc d s).unbiased).val) :=
+  ⟨contValue_range bias,
+   fun L cc d s hs hd hd53 hle =>
+     ⟨contValue_ge_plain L hs hd hd53 hle, contValue_self L hs hd hd53, contValue_eq_zero_iff L hs hd hd53,
+      fun cc' h1 h2 => contValue_mono L hs hd hd53 h1 h2⟩,
+   fun cc d s hd hd53 hcc hb => contValue_bias_one hd hd53 hcc hb⟩
+
+/-- `avg_containment`: the mean `(c1 + c2) / 2` of two reported containments is a double in `[0, 1]` -/
+theorem avg_containment_f64_range (bias : Nat → Nat → F64.F) (c1 c2 : Cont) :
+    0 ≤ (avgF (c1.value bias) (c2.value bias)).val ∧ (avgF (c1.value bias) (c2.value bias)).val ≤ 1 :=
+  avgF_range (contValue_range bias c1).2 (contValue_range bias c2).2
+
+/-! ### the angular similarity as a double: everything but `acos` -/
+
+/-- the argument handed to `acos` never exceeds 1: the code clamps with `f64::min(·, 1.)`, so `acos`
+    cannot return NaN, whatever the (possibly wrapped) integers are -/
+theorem angular_cos_arg_le_one (p a b : Nat) : (cosArg p a b).val ≤ 1 ∧ 0 ≤ (cosArg p a b).val :=
+  ⟨cosArg_le_one p a b, F64.F.val_nonneg _⟩
+
+/-- under `AcosLaws` the reported angular similarity is a non-negative double at most 1, for all inputs -/
+theorem angular_f64_range {acos : F64.F → F64.F} (L : AcosLaws acos) (p a b : Nat) :
+    (angularValue acos p a b).neg = false ∧ (angularValue acos p a b).a.val ≤ 1 := by
+  unfold angularValue
+  split
+  · exact ⟨rfl, by simp [F64.SF.zero, F64.F.val]⟩
+  · exact angTail_range L (cosArg_le_one p a b)
+
+/-- no common hash (dot product 0): exactly `0.0` -/
+theorem angular_f64_disjoint {acos : F64.F → F64.F} (L : AcosLaws acos) {a b : Nat} :
+    (angularValue acos 0 a b).neg = false ∧ (angularValue acos 0 a b).a.m = 0 := by
+  unfold angularValue
+  split
+  · exact ⟨rfl, rfl⟩
+  · apply angTail_at_zero L
+    unfold cosArg
+    simp only
+    have h0 : (F64.div (F64.ofNat 0) (F64.fmul (F64.sqrt (F64.ofNat a)) (F64.sqrt (F64.ofNat b)))).m = 0 :=
+      F64.div_zero_num (by decide)
+    split
+    · rename_i hge
+      exfalso
+      have := (F64.ge_iff_val _ _).1 hge
+      rw [F64.one_val, F64.val_zero_mant h0] at this
+      linarith
+    · exact h0
+
+/-- a sketch against itself: the similarity is exactly `1.0` **iff the clamp delivers 1**, for which it
+    suffices that the rounded square of the rounded norm does not exceed `Σa²` -/
+theorem angular_f64_self {acos : F64.F → F64.F} (L : AcosLaws acos) {S : Nat} (hS : 0 < S)
+    (h : (F64.fmul (F64.sqrt (F64.ofNat S)) (F64.sqrt (F64.ofNat S))).val ≤ (F64.ofNat S).val)
+    (hn : 0 < (F64.fmul (F64.sqrt (F64.ofNat S)) (F64.sqrt (F64.ofNat S))).m) :
+    angularValue acos S S S = F64.SF.one := by
+  unfold angularValue
+  rw [if_neg (by omega), cosArg_eq_one_of_le hS hn h]
+  exact angTail_at_one L F64.one_val
+
+/-- **finding `C05:angular-self-not-1` at model level**: for abundances (1, 1) — `Σa² = 2` — the argument
+    handed to `acos` is `1 - 2^-52`, not 1: `fl(√2)·fl(√2)` rounds to `2 + 2^-51 > 2`.  Every exact IEEE
+    operation involved is modelled; only `acos` is outside -/
+theorem angular_self_not_one_example :
+    cosArg 2 2 2 = ⟨2 ^ 53 - 2, -53⟩ ∧ (cosArg 2 2 2).val < 1 ∧
+    (F64.canon (F64.fmul (F64.sqrt (F64.ofNat 2)) (F64.sqrt (F64.ofNat 2)))) = ⟨2 ^ 52 + 1, -51⟩ := by
+  refine ⟨by decide +kernel, ?_, by decide +kernel⟩
+  have : cosArg 2 2 2 = ⟨2 ^ 53 - 2, -53⟩ := by decide +kernel
+  rw [this]
+  simp only [F64.F.val]
+  norm_num
+
+/-- when the unclamped quotient EXCEEDS 1: `Σa² = 3` (abundances (1, 1, 1)): `fl(√3)·fl(√3) < 3`, the
+    quotient is `1 + 2^-52`, and the clamp returns `1.0` -/
+theorem cos_unclamped_exceeds_one_example :
+    F64.canon (F64.div (F64.ofNat 3) (F64.fmul (F64.sqrt (F64.ofNat 3)) (F64.sqrt (F64.ofNat 3)))) =
+      ⟨2 ^ 52 + 1, -52⟩ ∧ cosArg 3 3 3 = F64.one := by
+  decide +kernel
+
 /-! ### behaviour the statement does not cover, recorded -/
 
 /-- two num sketches with DIFFERENT `num` pass `check_compatible`; `similarity` answers (asymmetrically:
@@ -1011,12 +1308,37 @@ theorem num_mismatch_answered_example :
   unfold Compatible
   decide +kernel
 
-/-- `u64` wrap-around: one hash with abundance 2^32 has `a*a = 2^64 = 0`: a norm of 0, similarity 0.0
-    of the sketch with itself (outside the stated no-overflow assumption) -/
+/-! ### `u64` overflow of the sums of squared abundances (finding `C05:angular-u64-overflow`)
+
+Abundances are `u64` and `set_abundances` / `add_hash_with_abundance` accept any of them; the release
+build accumulates `a*a` and the dot product in `u64` WITH WRAP-AROUND.  `dot_eq` is true of the wrapped
+values; the textbook quantity is only reported when nothing wraps (`dot_eq_no_overflow`).  The range
+`[0, 1]` survives (the clamp and `angular_f64_range` do not care what the integers are), the VALUE does not: -/
+
+/-- one hash with abundance 2^32: `a*a = 2^64` wraps to 0, the norm is 0, and the sketch has similarity
+    `0.0` WITH ITSELF (textbook: 1) -/
 theorem overflow_example :
     let a : MH := (MH.new 1 21 1 42 true 0).addHashAb 7 (2 ^ 32)
-    angularParts a a = .ok (0, 0, 0) ∧ normSq a = 2 ^ 64 := by
-  decide +kernel
+    angularParts a a = .ok (0, 0, 0) ∧ normSq a = 2 ^ 64 ∧
+    ∀ acos, angularValue acos 0 0 0 = F64.SF.zero := by
+  refine ⟨by decide +kernel, by decide +kernel, fun _ => rfl⟩
+
+/-- two almost orthogonal sketches (cosine `2^33 / (2^64 + 1) ≈ 4.7e-10`): both sums of squares wrap to 1,
+    the quotient `2^33 / 1` is clamped, and the similarity reported is exactly `1.0` under every `acos`
+    satisfying `AcosLaws` -/
+theorem overflow_orthogonal_example :
+    let e : MH := (MH.new 1 21 1 42 true 0).addManyAb [(1, 2 ^ 32), (2, 1)]
+    let f : MH := (MH.new 1 21 1 42 true 0).addManyAb [(1, 1), (2, 2 ^ 32)]
+    angularParts e f = .ok (2 ^ 33, 1, 1) ∧ dot e f = 2 ^ 33 ∧ normSq e = 2 ^ 64 + 1 ∧ normSq f = 2 ^ 64 + 1 ∧
+    cosArg (2 ^ 33) 1 1 = F64.one ∧
+    (∀ acos, AcosLaws acos → angularValue acos (2 ^ 33) 1 1 = F64.SF.one) := by
+  refine ⟨by decide +kernel, by decide +kernel, by decide +kernel, by decide +kernel, by decide +kernel, ?_⟩
+  intro acos L
+  unfold angularValue
+  rw [if_neg (by decide)]
+  have : cosArg (2 ^ 33) 1 1 = F64.one := by decide +kernel
+  rw [this]
+  exact angTail_at_one L F64.one_val
 
 /-! ### non-vacuity: concrete sketches satisfying the hypotheses, with the values the theorems give -/
 
